@@ -79,7 +79,7 @@ def _h(x):
     if isinstance(x, list): return '[' + ', '.join(_h(y) for y in x) + ']'
     return hex(x)
 
-def replay_I1(L, case, md):
+def replay_I1(L, case, md, name=''):
     """one instruction word through the real BytecodeMachine::compileInstruction + executeInstruction"""
     env = Env(md); fp = _fp(L)
     word = dict(opcode=env('opcode'), dst=(env('dst_hi') << 3) | case['dst'], src=(env('src_hi') << 3) | case['src'], mod=env('mod'), imm32=env('imm32'))
@@ -175,35 +175,75 @@ def replay_J1(L, case, md, name=''):
         k = next(j for j in range(x86native.SPSIZE) if exp[j] != got[j]); diffs.append('scratchpad[%d]: real code %#x, specification %#x' % (k, got[k], exp[k]))
     return bool(diffs), '%s word=%s i=%d v2=%d emitted=[%s]' % (kind, word, i, v2, ' '.join('%02x' % x for x in code)), diffs
 
-DRIVERS = {'I1': replay_I1, 'J1': replay_J1}
+def replay_R3(L, case, md, name=''):
+    return replay_J1(L, case, md, name) if '(op ' in name else replay_I1(L, case, md, name)
+
+DRIVERS = {'I1': replay_I1, 'J1': replay_J1, 'R3': replay_R3}
+
+def replay_many(recs, tag='replay-native', timeout=600):
+    """replays each record in a child process (the real code may crash on the solver's input -- which is itself a reproduction).
+    returns a list of (status, text), status in 'reproduced' | 'not-reproduced' | 'no-driver' | 'error'"""
+    import multiprocessing as mp, time
+    out = [None] * len(recs); todo = [k for k, r in enumerate(recs) if r.get('lemma') in DRIVERS]
+    for k in range(len(recs)):
+        if k not in todo: out[k] = ('no-driver', '')
+    t_end = time.time() + timeout
+    while todo:
+        pc, cc = mp.Pipe(False); p = mp.Process(target=_replay_child, args=(cc, [recs[k] for k in todo], tag)); p.start(); cc.close(); done = 0
+        while done < len(todo):
+            if pc.poll(max(1, t_end - time.time())):
+                try: out[todo[done]] = pc.recv(); done += 1
+                except EOFError: break
+            else: break
+        p.join(5)
+        if done == len(todo): break
+        if p.is_alive():
+            p.terminate(); p.join()
+            for k in todo[done:]: out[k] = ('error', 'native replay did not finish within %d s' % timeout)
+            break
+        if p.exitcode is not None and p.exitcode < 0:
+            out[todo[done]] = ('reproduced', 'the real code crashed on the solver\'s input (signal %d)' % -p.exitcode); todo = todo[done + 1:]
+        else:
+            for k in todo[done:]: out[k] = ('error', 'native replay child exited with %s' % p.exitcode)
+            break
+    return out
 
 def replay_record(rec, tag='replay-native', timeout=300):
-    """runs the driver in a child process: the real code may crash on the solver's input (which is itself a reproduction)"""
-    import multiprocessing as mp
-    if rec.get('lemma') not in DRIVERS: return 'no-driver', ''
-    pc, cc = mp.Pipe(False); p = mp.Process(target=_replay_child, args=(cc, rec, tag)); p.start(); cc.close()
-    if pc.poll(timeout):
-        try: r = pc.recv(); p.join(); return r
-        except EOFError: pass
-    p.join(5)
-    if p.is_alive(): p.terminate(); p.join(); return 'error', 'native replay did not finish in %d s' % timeout
-    if p.exitcode is None or p.exitcode >= 0: return 'error', 'native replay child exited with %s' % p.exitcode
-    return 'reproduced', 'the real code crashed on the solver\'s input (child exit code %s)' % p.exitcode
+    return replay_many([rec], tag, timeout)[0]
 
-def _replay_child(conn, rec, tag):
-    conn.send(_replay_record(rec, tag)); conn.close()
+def _replay_child(conn, recs, tag):
+    try: L = build_shim(tag); err = None
+    except Exception as e:
+        import traceback
+        L = None; err = traceback.format_exc()[-1500:]
+    for rec in recs: conn.send(('error', err) if L is None else _replay_record(L, rec))
+    conn.close()
 
-def _replay_record(rec, tag='replay-native'):
-    """returns (status, text): status in 'reproduced' | 'not-reproduced' | 'no-driver' | 'error'"""
+FPSYM = __import__('re').compile(r'^[fea]\d_\d$')
+def variants(md, n=12):
+    """the solver's assignment, then variations of the FP register bit patterns only (the FP operations are uninterpreted in the model, so the
+    solver's choice of operands need not separate two real IEEE operations; FP values never influence control flow)"""
+    yield md
+    rnd = random.Random(1)
+    for _ in range(n):
+        m2 = dict(md)
+        for g in 'fea':
+            for k in range(4):
+                for l in range(2):
+                    v = rnd.choice([1.0, -1.0]) * rnd.uniform(1.0, 2.0) * 2.0 ** rnd.randint(-30, 30)
+                    m2['%s%d_%d' % (g, k, l)] = struct.unpack('<Q', struct.pack('<d', abs(v) if g != 'f' else v))[0]
+        yield m2
+
+def _replay_record(L, rec):
     lem = rec.get('lemma')
-    if lem not in DRIVERS: return 'no-driver', ''
     try:
-        L = build_shim(tag); out = []
+        out = []
         for name, md in rec.get('failed', [])[:3]:
             if not isinstance(md, dict) or not md: continue
-            rep, desc, diffs = DRIVERS[lem](L, rec.get('case_dict') or {}, md, name) if lem == 'J1' else DRIVERS[lem](L, rec.get('case_dict') or {}, md)
-            out.append('%s\n   input: %s\n   %s' % (name, desc, '; '.join(diffs[:4]) if rep else 'real code agrees with the specification on this input'))
-            if rep: return 'reproduced', '\n'.join(out)
+            for vi, mdv in enumerate(variants(md)):
+                rep, desc, diffs = DRIVERS[lem](L, rec.get('case_dict') or {}, mdv, name)
+                if vi == 0 or rep: out.append('%s\n   input%s: %s\n   %s' % (name, ' (FP registers varied)' if vi else '', desc, '; '.join(diffs[:4]) if rep else 'real code agrees with the specification on this input'))
+                if rep: return 'reproduced', '\n'.join(out)
         return ('not-reproduced' if out else 'no-driver'), '\n'.join(out)
     except Exception as e:
         import traceback
